@@ -32,6 +32,7 @@ class Spec:
     panic_is_failure = True       # an uncaught panic of the implementation is a concrete violation
     oracle_filter = None          # names of the oracles that decide THIS property (None = all)
     raw_compare = True            # model result must equal the implementation's result token for token
+    no_compare_ops = ()           # ops judged by oracles only (no model result to compare)
 
     def batches(self, rng, tier):
         raise NotImplementedError
@@ -116,7 +117,7 @@ def classify(spec, batch, cases, results, report):
         if r["impl"] is None or r["model"] is None:
             report.errors.append((c, r, "missing result (impl=%s model=%s)" % (r["impl"] is not None, r["model"] is not None)))
             continue
-        if spec.raw_compare and r["impl"] != r["model"]:
+        if spec.raw_compare and c.op not in spec.no_compare_ops and r["impl"] != r["model"]:
             report.mismatches.append((c, r, batch.correspondence))
             continue
         nt = False
